@@ -598,7 +598,7 @@ fn cmd_run(a: &Args, sweep: bool) -> i32 {
 /// for HANG_SECONDS is stuck inside the library (endless loop, or a dead-lock after it corrupted
 /// memory): regenerate the trace it is executing, save it and give up with exit code 4.
 #[cfg(not(miri))]
-const HANG_SECONDS: u64 = 30;
+const HANG_SECONDS: u64 = 120;
 
 #[cfg(not(miri))]
 fn watchdog(seed: u64, sweep: bool, profiles: Vec<String>, replay_dir: String, prop: String) {
